@@ -85,8 +85,41 @@ def cases(draw):
             "algo_pick": draw(st.integers(0, 3))}
 
 
+@st.composite
+def overlap_cases(draw):
+    """Constraints hyper-graphs in which two links with different node sets share a pair of computations
+    (c0(x,y,z) next to c1(x,y) or c1(x,y,w)): the pair must be priced once, by the ILP and by distribution_cost
+    alike.  Hosting costs are drawn around the communication costs so that the trade-off is open."""
+    nv = draw(st.integers(3, 4))
+    names = draw(st.lists(st.sampled_from(gen.NAME_POOL), min_size=nv, max_size=nv, unique=True))
+    scopes = [names[:3], draw(st.sampled_from([names[:2], names[1:3], [names[0], names[2]]] +
+                                              ([[names[0], names[1], names[3]]] if nv == 4 else [])))]
+    if draw(st.booleans()):
+        k = draw(st.integers(2, 3))
+        scopes.append(draw(st.lists(st.sampled_from(names), min_size=k, max_size=k, unique=True)))
+    dcop = {"objective": "min", "domains": {"d0": [0, 1]},
+            "variables": [{"name": n, "domain": "d0", "cost": None, "initial": None} for n in names],
+            "constraints": [{"name": "c%d" % i, "scope": sc, "kind": "matrix",
+                             "table": gen.nested_table(draw, [2] * len(sc), gen.nonneg_int_costs)}
+                            for i, sc in enumerate(scopes)]}
+    na = draw(st.sampled_from([2, 2, 3]))
+    route = draw(st.sampled_from([1, 1, 2, 0.5]))
+    agents = []
+    for i in range(na):
+        agents.append({"name": AGENT_NAMES[i], "default_route": route, "routes": {},
+                       "capacity": draw(st.sampled_from([1000, 1000, 8, 5])),
+                       "default_hosting_cost": draw(st.sampled_from([1, 2, 4, 6, 9, 12, 15, 18, 20, 25])),
+                       "hosting": draw(st.lists(st.tuples(st.integers(0, 4), st.sampled_from([1, 5, 10, 16, 30])),
+                                                max_size=2))})
+    return {"dcop": dcop, "graph": "constraints_hypergraph", "method": "oilp_cgdp", "agents": agents,
+            "costs": "sym", "footprint": draw(st.lists(st.sampled_from([0, 1, 2, 3]), min_size=5, max_size=5)),
+            "load": draw(st.lists(st.lists(st.sampled_from([1, 1, 2, 4]), min_size=5, max_size=5),
+                                  min_size=5, max_size=5)),
+            "algo_pick": draw(st.integers(0, 3))}
+
+
 def case_strategy(tier):
-    return cases()
+    return st.one_of(cases(), cases(), cases(), overlap_cases())
 
 
 _patched = set()
